@@ -8,6 +8,7 @@ CONSTANTS
   MaxLen = 4
   MaxTix = 3
   TLen = 60
+  Ops = {"SetKeys", "Advance", "Encrypt", "Flip", "Truncate", "Extend", "Decrypt", "Indep", "Recheck", "Reread"}
   Mode = "tickets"
   Versions = {771}
   Suites = {49199}
@@ -18,6 +19,6 @@ CONSTANTS
   SecretLens = {48}
 INIT Init
 NEXT Next
-INVARIANTS Authentic RoundTrip KeysSane Agree
+INVARIANTS Authentic RoundTrip KeysSane Agree HeldStable
 CONSTRAINT Emit
 CHECK_DEADLOCK FALSE
